@@ -12,6 +12,12 @@ CLAIMED = {
         text="Lean theorems about a function-by-function model of impl/src/fmt/parsing.rs and parse_fmt_string against a derivation model of the std::fmt grammar; the model is compared with the working-tree parser, and the grammar model with rustc's own parser, on ~150k generated literals per run",
         note="Lean kernel; hand-written model tied by differential run each time; rustc_parse_format (nightly) as std oracle; Unicode classes are parameters; syn unescaping and format_args! itself not modelled",
         ref="DESIGN.md §4 C03"),
+    "C05": dict(
+        level="proof",
+        technique="Lean 4 theorems about the transparency decision + correspondence of the expander model with the working tree + behaviour grid with the real proc-macro",
+        text="Lean theorems: the attribute delegates iff its literal is one modifier-free placeholder referring to its only argument / a binding (transparent_iff_bare), other indices and modifiers never delegate, the two bodies are pass-through resp. inert; the model of the Display-like/Debug expanders is compared token-for-token (fmt body, where-clause) with the working-tree expanders on generated items, the decision with an oracle built on rustc_parse_format, and ~4k (type, outer spec) pairs are run with the real macro",
+        note="Lean kernel; model tied by differential run; std's formatter semantics (Trait::fmt sees caller options, write! ignores them) is modelled in two lines and validated by the behaviour grid each run",
+        ref="DESIGN.md §4 C05"),
 }
 
 NOT_APPLICABLE = {}
